@@ -249,11 +249,13 @@ class NotApplicable(Exception):
 class Gen:
     def __init__(self, rng, ntables=3, max_tr=6, nlets=None, kinds=None, declared=True, shared_k=True,
                  append_inline=False, open_take=True, dup_names=True, forced=None, literal=False, functions=False, simple_sort=False,
-                 shapes=False, force_shape=None, key_join=False):
+                 shapes=False, force_shape=None, key_join=False, side_kinds=None):
         self.rng = rng
         # key_join: joins equate the unique key columns of both sides (inner / left), so that every left row has at most one
         # partner and the order of the left input stays determinate through the join
         self.key_join = key_join
+        # side_kinds: transform kinds of inline join sides (default select / derive / filter)
+        self.side_kinds = side_kinds
         self.forced = forced
         self.simple_sort = simple_sort
         self.functions = functions
@@ -819,7 +821,7 @@ class Gen:
             if sp:
                 inline, all_eq = True, True
         elif self.want("join_inline", 0.3):
-            sp = self.sub_pipeline(sname)
+            sp = self.sub_pipeline(sname, kinds=self.side_kinds) if self.side_kinds else self.sub_pipeline(sname)
             if sp:
                 inline = True
         if inline:
@@ -1259,7 +1261,11 @@ def carried_order_join_cases(profile, seed=37, variants=3):
         for mid in [(), ("select",), ("derive",), ("filter",)]:
             for tail in [("group_agg",), ("aggregate",), ("group_take",), ("derive",), ("filter",), ("select",), ("group_agg", "sort"), ("take",), ()]:
                 seqs.append(first + mid + ("take",) + tail)
-    return sequence_cases(seqs, dict(profile, key_join=True), seed=seed, variants=variants, maxrows=7)
+    out = sequence_cases(seqs, dict(profile, key_join=True), seed=seed, variants=variants, maxrows=7)
+    # the same with an inline join side that has a sort of its own (it must not replace the order of the enclosing pipeline)
+    side = dict(profile, key_join=True, shapes=True, force_shape=["join_inline"], side_kinds=("sort", "select", "sort", "filter"))
+    out += sequence_cases([s_ for s_ in seqs if s_[:2] == ("sort", "join") and len(s_) <= 5], side, seed=seed + 1, variants=variants, maxrows=7)
+    return out
 
 
 def const_join_cases(profile, seed=41, variants=10):
